@@ -52,11 +52,12 @@ def main_queue(v, prop, seed, n):
 def steer_f1(v, prop):
     """Steered schedule of finding F1 on the real library (harness/drv_f1.c)."""
     drv = build_driver("drv_f1")
-    for mode in ("serial", "concurrent"):
-        rc, out, err = sh([drv, mode], timeout=120)
+    for mode, form in (("serial", "sync"), ("concurrent", "sync"), ("serial", "aaw"), ("concurrent", "aaw")):
+        rc, out, err = sh([drv, mode, form], timeout=120)
+        mode = mode + "/" + form
         v.notes.setdefault("steered_F1", []).append({"mode": mode, "rc": rc, "out": (out + err).strip()[-200:]})
         if rc == 2:
-            p = save_replay(prop, "f1_%s.txt" % mode, out + err)
+            p = save_replay(prop, "f1_%s.txt" % mode.replace("/", "_"), out + err)
             v.violation("steered schedule F1 (%s): a synchronous submission overtook the caller's earlier dispatch_async: %s" % (mode, out.strip()[-200:]), p)
         elif rc == 4:
             v.notes.setdefault("steering_inconclusive", []).append(mode)
